@@ -509,3 +509,407 @@ def wrapper_calls(stmt, wrapper):
             targets = stmt[1]
         res.append((cid, args, nout, targets))
     return res
+
+
+# ====================================================================== interpreter
+class MatlabError(Exception):
+    pass
+
+
+class ReturnSignal(Exception):
+    pass
+
+
+class U64(int):
+    """uint64 scalar"""
+
+
+class I32(int):
+    """int32 scalar"""
+
+
+class MObject:
+    _next = [1]
+
+    def __init__(self, cls):
+        self.cls = cls               # dotted MATLAB class name
+        self.props = {}
+        self.id = MObject._next[0]
+        MObject._next[0] += 1
+        self.deleted = False
+
+    def __repr__(self):
+        return '<%s #%d>' % (self.cls, self.id)
+
+
+class MEnum:
+    def __init__(self, cls, name, value):
+        self.cls, self.name, self.value = cls, name, value
+
+    def __eq__(self, o):
+        return isinstance(o, MEnum) and (self.cls, self.value) == (o.cls, o.value)
+
+    def __hash__(self):
+        return hash((self.cls, self.value))
+
+    def __repr__(self):
+        return '%s.%s' % (self.cls, self.name)
+
+
+class Interp:
+    """Interprets the generated toolbox.  `wrapper(name, nargout, args) -> list of outputs` performs a MEX call."""
+
+    def __init__(self, tree, wrapper_name, wrapper):
+        self.classes = {}
+        self.functions = {}
+        self.wrapper_name = wrapper_name
+        self.wrapper = wrapper
+        self.objects = {}
+        for path, text in tree.items():
+            if not path.endswith('.m'):
+                continue
+            parts = path[:-2].split('/')
+            dotted = '.'.join([p[1:] for p in parts[:-1]] + [parts[-1]])
+            ast = parse_file(text, path)
+            if isinstance(ast, dict):
+                ast['dotted'] = dotted
+                self.classes[dotted] = ast
+            else:
+                self.functions[dotted] = ast[1]
+
+    # ---- class helpers
+    def chain(self, cls):
+        out = []
+        while cls and cls != 'handle' and cls in self.classes:
+            out.append(cls)
+            cls = self.classes[cls]['base']
+        return out
+
+    def find_method(self, cls, name, static=False):
+        for c in self.chain(cls):
+            for f in self.classes[c]['static' if static else 'methods']:
+                if f['name'] == name:
+                    return c, f
+        return None, None
+
+    def isa(self, v, name):
+        if isinstance(v, bool):
+            return name == 'logical'
+        if isinstance(v, U64):
+            return name in ('uint64', 'numeric', 'integer')
+        if isinstance(v, I32):
+            return name in ('int32', 'numeric', 'integer')
+        if isinstance(v, (int, float)):
+            return name in ('double', 'numeric', 'float')
+        if isinstance(v, str):
+            return name == 'char'
+        if isinstance(v, list):
+            return name in ('double', 'numeric', 'float')
+        if isinstance(v, MObject):
+            return name in self.chain(v.cls) or name == 'handle'
+        if isinstance(v, MEnum):
+            return name in (v.cls, 'uint32', 'numeric', 'integer')
+        return False
+
+    # ---- construction / calls
+    def construct(self, cls, args):
+        cd = self.classes[cls]
+        if cd['base'] == 'uint32' or cd['enumeration']:
+            v = args[0]
+            val = int(v.value if isinstance(v, MEnum) else v)
+            for n, e in cd['enumeration']:
+                if int(float(e[1])) == val:
+                    return MEnum(cls, n, val)
+            raise MatlabError('no enumeration member of %s has value %r' % (cls, val))
+        obj = MObject(cls)
+        for c in reversed(self.chain(cls)):
+            for p, dflt in self.classes[c]['properties']:
+                obj.props[p] = float(dflt[1]) if dflt is not None and dflt[0] == 'num' else []
+        self.objects[obj.id] = obj
+        self.run_constructor(cls, obj, args)
+        return obj
+
+    def run_constructor(self, cls, obj, args):
+        cd = self.classes[cls]
+        ctor = [f for f in cd['methods'] if f['name'] == cd['name']]
+        if not ctor:
+            return
+        f = ctor[0]
+        env = {'varargin': list(args), 'nargin': len(args), 'obj': obj, '__cls__': cls}
+        self.exec_block(f['body'], env, 1)
+
+    def call_function(self, f, args, nargout, this=None, cls=None):
+        env = {'nargin': len(args) + (1 if this is not None else 0), '__cls__': cls}
+        params = list(f['params'])
+        a = list(args)
+        if this is not None:
+            env[params[0]] = this
+            params = params[1:]
+        for p in params:
+            if p == 'varargin':
+                env['varargin'] = a
+                a = []
+            elif a:
+                env[p] = a.pop(0)
+        env['varargout'] = {}
+        try:
+            self.exec_block(f['body'], env, nargout)
+        except ReturnSignal:
+            pass
+        outs = []
+        for o in f['out']:
+            if o == 'varargout':
+                vo = env.get('varargout', {})
+                k = 1
+                while k in vo:
+                    outs.append(vo[k])
+                    k += 1
+            elif o in env:
+                outs.append(env[o])
+        return outs
+
+    def call_method(self, obj, name, args, nargout=1):
+        c, f = self.find_method(obj.cls, name)
+        if f is None:
+            raise MatlabError('no method %s in class %s' % (name, obj.cls))
+        return self.call_function(f, args, nargout, this=obj, cls=c)
+
+    def call_static(self, cls, name, args, nargout=1):
+        c, f = self.find_method(cls, name, static=True)
+        if f is None:
+            raise MatlabError('no static method %s in class %s' % (name, cls))
+        return self.call_function(f, args, nargout, cls=c)
+
+    def call_free(self, dotted, args, nargout=1):
+        f = self.functions.get(dotted)
+        if f is None:
+            raise MatlabError('no function %s' % dotted)
+        return self.call_function(f, args, nargout)
+
+    def get_property(self, obj, name):
+        c, f = self.find_method(obj.cls, 'get.' + name)
+        if f is not None:
+            outs = self.call_function(f, [], 1, this=obj, cls=c)
+            return outs[0] if outs else obj.props.get(name)
+        return obj.props.get(name)
+
+    def set_property(self, obj, name, value):
+        c, f = self.find_method(obj.cls, 'set.' + name)
+        if f is not None:
+            self.call_function(f, [value], 0, this=obj, cls=c)
+            return
+        obj.props[name] = value
+
+    def delete(self, obj):
+        """Handle-class destruction: delete methods from the most derived class up."""
+        if obj.deleted:
+            return
+        obj.deleted = True
+        for c in self.chain(obj.cls):
+            for f in self.classes[c]['methods']:
+                if f['name'] == 'delete':
+                    self.call_function(f, [], 0, this=obj, cls=c)
+        self.objects.pop(obj.id, None)
+
+    # called from the MEX side (mexCallMATLAB)
+    def call_matlab(self, name, args, nargout):
+        if name == 'int32':
+            v = args[0]
+            return [I32(int(v.value if isinstance(v, MEnum) else v))]
+        if name in self.classes:
+            return [self.construct(name, args)]
+        if name in self.functions:
+            return self.call_free(name, args, nargout)
+        raise MatlabError('mexCallMATLAB: unknown function or class %s' % name)
+
+    # ---- statements
+    def exec_block(self, stmts, env, nargout):
+        for st in stmts:
+            k = st[0]
+            if k == 'if':
+                done = False
+                for cond, body in st[1]:
+                    if self.truth(self.eval(cond, env)):
+                        self.exec_block(body, env, nargout)
+                        done = True
+                        break
+                if not done and st[2] is not None:
+                    self.exec_block(st[2], env, nargout)
+            elif k == 'return':
+                raise ReturnSignal()
+            elif k == 'assign':
+                rhs = st[2]
+                if rhs[0] == 'supercall':
+                    obj = env[rhs[1][1]]
+                    base = qname(rhs[2])
+                    self.run_constructor(base, obj, [self.eval(a, env) for a in rhs[3]])
+                    continue
+                vals = self.eval_multi(rhs, env, 1)
+                if not vals:
+                    raise MatlabError('too many output arguments: %r produced no value' % (rhs,))
+                self.assign(st[1], vals[0], env)
+            elif k == 'massign':
+                vals = self.eval_multi(st[2], env, len(st[1]))
+                if len(vals) < len(st[1]):
+                    raise MatlabError('too many output arguments requested (%d, got %d)' % (len(st[1]), len(vals)))
+                for lv, v in zip(st[1], vals):
+                    self.assign(lv, v, env)
+            elif k == 'expr':
+                self.eval_multi(st[1], env, 0)
+            else:
+                raise MatlabError('cannot execute %r' % (st,))
+
+    def assign(self, lv, v, env):
+        if lv[0] == 'name':
+            env[lv[1]] = v
+        elif lv[0] == 'cell' and lv[1][0] == 'name':
+            idx = int(float(self.eval(lv[2][0], env)))
+            env.setdefault(lv[1][1], {})[idx] = v
+        elif lv[0] == 'field' and lv[1][0] == 'name':
+            tgt = env.get(lv[1][1])
+            if isinstance(tgt, MObject):
+                tgt.props[lv[2]] = v          # inside class methods: direct property store
+            else:
+                env[lv[1][1]] = {lv[2]: v}    # MATLAB would create a struct (the generated set.<p> does `obj.p = value`)
+        else:
+            raise MatlabError('cannot assign to %r' % (lv,))
+
+    def truth(self, v):
+        return bool(v)
+
+    def eval(self, e, env):
+        vals = self.eval_multi(e, env, 1)
+        if not vals:
+            raise MatlabError('expression %r produced no value' % (e,))
+        return vals[0]
+
+    def eval_args(self, args, env):
+        out = []
+        for a in args:
+            if a[0] == 'cell' and a[2] == [('colon',)]:
+                v = env.get(a[1][1], [])
+                out += list(v) if isinstance(v, list) else [v[k] for k in sorted(v)]
+            else:
+                out.append(self.eval(a, env))
+        return out
+
+    def eval_multi(self, e, env, nargout):
+        k = e[0]
+        if k == 'num':
+            return [float(e[1])] if ('.' in e[1] or 'e' in e[1].lower()) else [float(e[1])]
+        if k == 'str':
+            return [e[1]]
+        if k == 'paren':
+            return [self.eval(e[1], env)]
+        if k == 'and':
+            return [self.truth(self.eval(e[1], env)) and self.truth(self.eval(e[2], env))]
+        if k == 'or':
+            return [self.truth(self.eval(e[1], env)) or self.truth(self.eval(e[2], env))]
+        if k == 'not':
+            return [not self.truth(self.eval(e[1], env))]
+        if k == 'cmp':
+            a, b = self.eval(e[2], env), self.eval(e[3], env)
+            if e[1] == '==':
+                if isinstance(a, (MObject, MEnum)) or isinstance(b, (MObject, MEnum)):
+                    return [a == b]
+                return [type(a) not in (str, list) and type(b) not in (str, list) and float(a) == float(b) if not (isinstance(a, str) or isinstance(b, str)) else a == b]
+            if e[1] == '~=':
+                return [a != b]
+            raise MatlabError('comparison %s not supported' % e[1])
+        if k == 'name':
+            n = e[1]
+            if n in env:
+                return [env[n]]
+            if n == 'nargin':
+                return [float(env.get('nargin', 0))]
+            # a function or class called without parentheses
+            return self.call_named(n, [], env, nargout)
+        if k == 'cell':
+            base = env.get(e[1][1]) if e[1][0] == 'name' else None
+            if base is None:
+                raise MatlabError('cell indexing of %r' % (e[1],))
+            idx = int(float(self.eval(e[2][0], env)))
+            if isinstance(base, list):
+                if idx < 1 or idx > len(base):
+                    raise MatlabError('index exceeds the number of array elements')
+                return [base[idx - 1]]
+            return [base[idx]]
+        if k == 'field':
+            q = qname(e)
+            root = e
+            while root[0] == 'field':
+                root = root[1]
+            if root[0] == 'name' and root[1] in env:
+                tgt = self.eval(e[1], env)
+                if isinstance(tgt, MObject):
+                    # obj.method (no parentheses) or property
+                    c, f = self.find_method(tgt.cls, e[2])
+                    if f is not None and e[2] not in tgt.props:
+                        return self.call_function(f, [], nargout, this=tgt, cls=c)
+                    if env.get('__cls__') and tgt is env.get('this', env.get('obj')):
+                        return [tgt.props.get(e[2])]
+                    return [self.get_property(tgt, e[2])]
+                if isinstance(tgt, dict):
+                    return [tgt[e[2]]]
+                raise MatlabError('field access on %r' % (tgt,))
+            return self.call_named(q, [], env, nargout)
+        if k == 'call':
+            args = self.eval_args(e[2], env)
+            fn = e[1]
+            q = qname(fn)
+            root = fn
+            while root[0] == 'field':
+                root = root[1]
+            if root[0] == 'name' and root[1] in env and fn[0] == 'field':
+                tgt = self.eval(fn[1], env)
+                if isinstance(tgt, MObject):
+                    c, f = self.find_method(tgt.cls, fn[2])
+                    if f is None:
+                        raise MatlabError('no method %s in %s' % (fn[2], tgt.cls))
+                    return self.call_function(f, args, nargout, this=tgt, cls=c)
+            if fn[0] == 'name' and fn[1] in env and not callable(env[fn[1]]):
+                base = env[fn[1]]        # indexing with ()
+                idx = int(float(args[0]))
+                return [base[idx - 1]]
+            return self.call_named(q, args, env, nargout)
+        raise MatlabError('cannot evaluate %r' % (e,))
+
+    def call_named(self, q, args, env, nargout):
+        if q == self.wrapper_name:
+            return self.wrapper(q, nargout, args)
+        if q == 'isa':
+            return [self.isa(args[0], args[1])]
+        if q == 'strcmp':
+            return [isinstance(args[0], str) and args[0] == args[1]]
+        if q == 'length':
+            return [float(len(args[0]))]
+        if q == 'size':
+            v = args[0]
+            dims = (1.0, 1.0)
+            if isinstance(v, list):
+                dims = (float(len(v)), 1.0) if not v or not isinstance(v[0], list) else (float(len(v)), float(len(v[0])))
+            elif isinstance(v, str):
+                dims = (1.0 if v else 0.0, float(len(v)))
+            return [dims[int(float(args[1])) - 1]] if len(args) > 1 else [list(dims)]
+        if q == 'uint64':
+            return [U64(int(args[0]))]
+        if q == 'int32':
+            return [I32(int(args[0]))]
+        if q == 'double':
+            return [float(args[0])]
+        if q == 'error':
+            raise MatlabError(str(args[0]) if args else 'error')
+        if q in self.classes:
+            return [self.construct(q, args)]
+        if q in self.functions:
+            return self.call_free(q, args, nargout)
+        # Class.StaticMethod or Enum member
+        if '.' in q:
+            cls, _, member = q.rpartition('.')
+            if cls in self.classes:
+                cd = self.classes[cls]
+                for n, ev in cd['enumeration']:
+                    if n == member:
+                        return [MEnum(cls, n, int(float(ev[1])))]
+                return self.call_static(cls, member, args, nargout)
+        raise MatlabError('undefined function or variable %s' % q)
